@@ -257,3 +257,53 @@ theorem good_runFrom (sh : Sharing) (hs : sh.classAttrsByRef = false) (ops : Lis
     cases op <;> simp [inputsOf]
 
 end Pyx.Heap
+
+namespace Pyx.Heap
+open Pyx.Load
+
+/-! ### histories with clones -/
+
+theorem runC_from (sh : Sharing) (ops : List OpC) :
+    ∀ w, ops.foldl (stepC sh) w = runFrom sh w (resolveAll sh w ops) := by
+  induction ops with
+  | nil => intro w; rfl
+  | cons oc rest ih =>
+    intro w
+    simp only [List.foldl_cons, resolveAll, runFrom]
+    rw [ih]
+    rfl
+
+/-- a history with clones is the history in which every clone is replaced by the `new` it amounts to -/
+theorem runC_eq_run (sh : Sharing) (ops : List OpC) : runC sh ops = run sh (resolveAll sh World.init ops) :=
+  runC_from sh ops World.init
+
+theorem resolveOp_clone (w : World) (k j : Nat) (kind : String) (id : Nat) :
+    resolveOp w (.cloneInto k j kind id) = .input [] ∨
+    ∃ args, resolveOp w (.cloneInto k j kind id) = .mutate k (.newArgs kind args) := by
+  simp only [resolveOp]
+  split
+  · split
+    · split
+      · exact Or.inr ⟨_, rfl⟩
+      · exact Or.inl rfl
+    · exact Or.inl rfl
+  · exact Or.inl rfl
+
+/-- cloning an instance of metamodel `j` into metamodel `k` leaves the loader's statements and every metamodel
+    other than `k` — in particular the source `j ≠ k` — as they were -/
+theorem clone_writes_target_only (sh : Sharing) (w : World) (hg : Good w) (k j : Nat) (kind : String) (id : Nat) :
+    (stepC sh w (.cloneInto k j kind id)).stmts = w.stmts ∧
+    ∀ i, i ≠ k → (stepC sh w (.cloneInto k j kind id)).metas[i]? = w.metas[i]? := by
+  unfold stepC
+  rcases resolveOp_clone w k j kind id with h | ⟨args, h⟩
+  · rw [h]
+    exact ⟨by simp [step], fun _ _ => rfl⟩
+  · rw [h]
+    obtain ⟨h1, _, _, h4⟩ := step_mutate_good sh w k (.newArgs kind args) hg
+    exact ⟨h1, h4⟩
+
+theorem good_runC (sh : Sharing) (hs : sh.classAttrsByRef = false) (ops : List OpC) : Good (runC sh ops) := by
+  rw [runC_eq_run]
+  exact (good_runFrom sh hs _ World.init (by intro j o hj; simp [World.init] at hj)).1
+
+end Pyx.Heap
